@@ -26,6 +26,8 @@ func ruleC19(c *Check) {
 	c.resetConstants("C19.2")
 	c.genesisCodecs("C19.3")
 	c.enumTables("C19.4")
+	c.paramValidatorsAgree("C19.5")
+	c.keyGrammar("C19.1", map[string]bool{"0x05": true, "0x14": true, "0x15": true})
 	c.genesisCoverage("C19.5")
 	c.genesisBindingSetter("C19.5")
 	c.genesisValidators("C19.6")
@@ -42,9 +44,17 @@ func (c *Check) zeroHeightRefunds(rule string) {
 	nFee, nEarn := 0, 0
 	rec := map[string]map[string]*Builder{}
 	kt := c.P.keys()
-	for _, b := range kt.Builders {
-		if b.Name == "types.GetEarnedFeesKey" || b.Name == "types.GetActiveRequestKey" {
-			rec[b.Shape.Family()] = map[string]*Builder{b.Name: b}
+	// the record builders of the earnings family and of the by-binding pending-request family: the builder with
+	// the longest shape of the family (sub-space builders are its prefixes)
+	for _, fam := range []string{"0x18", "0x14"} {
+		var best *Builder
+		for _, b := range kt.buildersOfFamily(fam) {
+			if best == nil || len(b.Shape) > len(best.Shape) {
+				best = b
+			}
+		}
+		if best != nil {
+			rec[fam] = map[string]*Builder{best.Name: best}
 		}
 	}
 	for _, e := range sum.Effs {
@@ -160,7 +170,7 @@ func (c *Check) resetConstants(rule string) {
 			fmt.Sprintf("every path of the per-context reset stores the reset context and continues the iteration (%d of %d paths do not)", bad, np))
 	}
 	// validation requires exactly these constants
-	vg := c.mustFn(rule, "types.ValidateGenesis")
+	vg := c.mustFn(rule, c.typesName("ValidateGenesis"))
 	if vg == nil {
 		return
 	}
@@ -252,7 +262,7 @@ func (c *Check) exportAccumulators(exp *Func) []exportAccum {
 func (c *Check) genesisCodecs(rule string) {
 	exp := c.mustFn(rule, "service.ExportGenesis")
 	imp := c.mustFn(rule, "service.InitGenesis")
-	val := c.mustFn(rule, "types.ValidateGenesis")
+	val := c.mustFn(rule, c.typesName("ValidateGenesis"))
 	if exp == nil || imp == nil || val == nil {
 		return
 	}
@@ -329,7 +339,7 @@ func (c *Check) genesisCodecs(rule string) {
 // genesisCtorArgs: GenesisState field -> name of the local collection passed at that constructor position.
 func (c *Check) genesisCtorArgs(exp *Func) map[string]string {
 	out := map[string]string{}
-	ctor := c.P.FuncNamed("types.NewGenesisState")
+	ctor := c.typesFn("NewGenesisState")
 	if ctor == nil {
 		return out
 	}
@@ -464,6 +474,23 @@ func (c *Check) enumTables(rule string) {
 		sort.Strings(problems)
 		c.req(len(consts) >= 2 && len(problems) == 0, rule, "types."+enum+"#string-tables", to.pos,
 			fmt.Sprintf("the written and readable name tables are mutual inverses and total over %v", consts)+condStr(len(problems) > 0, ": "+strings.Join(problems, "; ")))
+		// the written name of a value is looked up in the enum's own table
+		if sf := c.P.FuncNamed("types." + enum + ".String"); sf != nil {
+			okStr := false
+			got := ""
+			for _, pa := range c.P.PathsOf(sf) {
+				if len(pa.Ret) == 1 {
+					r := stripConv(pa.Ret[0])
+					got = shortTerm(r)
+					if r.Op == "idx" && len(r.A) == 2 && r.A[0].IsAt("@types."+enum+"ToStringMap") && stripConv(r.A[1]).IsAt("Precv") {
+						okStr = true
+					}
+				}
+			}
+			c.req(okStr, rule, "types."+enum+".String#own-table", sf.Body.Pos(), "String() returns the entry of "+enum+"ToStringMap for the receiver: "+got)
+		} else {
+			c.undecided(rule, "types."+enum+".String", token.NoPos, "String method not found")
+		}
 		// proto JSON reads through <Enum>_value (plus names registered at init)
 		var unreadable []string
 		for _, k := range consts {
@@ -523,6 +550,34 @@ func (c *Check) genesisCoverage(rule string) {
 			famOfType[acc.typ] = acc.fam
 		}
 	}
+	// the accumulating callbacks never ask the scan to stop: every record of the family is exported
+	for _, acc := range c.exportAccumulators(exp) {
+		_ = acc
+	}
+	for _, pa := range c.P.PathsOf(exp) {
+		for _, ev := range pa.Events {
+			if ev.Kind != EvCall || ev.CI.fn == nil {
+				continue
+			}
+			for _, a := range ev.CI.args {
+				if !a.Is("func") || len(a.A) < 1 {
+					continue
+				}
+				cl := c.P.FuncNamed(a.A[0].At)
+				if cl == nil || len(cl.Res) != 1 || typeName(cl.Res[0].Type()) != "bool" {
+					continue
+				}
+				stops := false
+				for _, pb := range c.P.PathsOf(cl) {
+					if len(pb.Ret) == 1 && !pb.Ret[0].IsAt("#false") {
+						stops = true
+					}
+				}
+				c.req(!stops, rule, unitConstruct(cl, "export-callback-continues"), ev.Pos,
+					"the callback that collects records for export returns false (continue) on every path, so the whole family is exported")
+			}
+		}
+	}
 	fieldType := map[string]string{}
 	for i := 0; i < st.NumFields(); i++ {
 		fieldType[st.Field(i).Name()] = st.Field(i).Type().String()
@@ -563,15 +618,23 @@ func (c *Check) genesisCoverage(rule string) {
 	}
 	if f := c.P.FuncNamed("keeper.Keeper.GetParams"); f != nil {
 		for _, pa := range c.P.PathsOf(f) {
-			for _, ev := range pa.Events {
-				if ev.Kind == EvCall && ev.CI.name == "types.NewParams" {
-					nGet = len(ev.CI.args)
+			// the number of fields of the assembled parameter set (constructor call or field-by-field literal)
+			if len(pa.Ret) == 1 {
+				r := stripConv(pa.Ret[0])
+				n := 0
+				if r.Op == "lit" {
+					n = len(r.A) - 1
+				} else if r.Op == "with" {
+					n = len(writtenFields(r))
+				}
+				if n > nGet {
+					nGet = n
 				}
 			}
 		}
 	}
 	nCtor := 0
-	if f := c.P.FuncNamed("types.NewParams"); f != nil {
+	if f := c.typesFn("NewParams"); f != nil {
 		nCtor = len(f.Params)
 	}
 	c.req(np >= 1 && np == nPairs && np == nGet && np == nCtor, rule, "types.Params#round-trip", token.NoPos,
@@ -580,7 +643,7 @@ func (c *Check) genesisCoverage(rule string) {
 
 // genesisValidators: ValidateGenesis applies the record validators to every collection.
 func (c *Check) genesisValidators(rule string) {
-	vg := c.mustFn(rule, "types.ValidateGenesis")
+	vg := c.mustFn(rule, c.typesName("ValidateGenesis"))
 	if vg == nil {
 		return
 	}
